@@ -83,6 +83,12 @@ struct ProjVis {
 			if constexpr(D >= 3) { auto&& iv = std::as_const(v).rotated().transposed().unrotated(); MV im = m_unrotated(m_transposed(m_rotated(m))); multi::array<long, D> C2(iv); multi::array<int, D> C3(iv);  // inner dimensions permuted (compact when v is)
 				if(tuple_to_vec(C2.sizes()) != im.size || tuple_to_vec(C3.sizes()) != im.size) violation(K + "inner-permuted:extents", "array from a view with permuted inner dimensions has other extents");
 				else for(L k = 0; k < N; ++k) if(C2.data_elements()[k] != long(base[im.off[std::size_t(k)]]) || C3.data_elements()[k] != base[im.off[std::size_t(k)]]) { violation(K + "inner-permuted:value", "array constructed from a view with permuted inner dimensions differs element-wise from the view"); break; } }
+			{	// from an owning array / array_ref of a convertible element type of the SAME size (int -> float, long -> double): converted element by element, never reinterpreted
+				multi::array<int, D> src(std::as_const(v)); multi::array<float, D> F(src); multi::array<float, D> F2(multi::array_ref<int, D>(src.extensions(), src.data_elements())); multi::array<float, D> F3; F3 = src; multi::array<float, D> F4(src.extensions(), 0.5F); F4 = src;
+				multi::array<long, D> lsrc(src); multi::array<double, D> DD(lsrc); multi::array<int, D> back(F);
+				if(tuple_to_vec(F.sizes()) != m.size || tuple_to_vec(F2.sizes()) != m.size || tuple_to_vec(F3.sizes()) != m.size || tuple_to_vec(DD.sizes()) != m.size) violation(K + "same-size-conversion:extents", "array from an array of convertible element type has other extents");
+				else for(L k = 0; k < N; ++k) { float const want = float(src.data_elements()[k]); if(F.data_elements()[k] != want || F2.data_elements()[k] != want || F3.data_elements()[k] != want || F4.data_elements()[k] != want || DD.data_elements()[k] != double(src.data_elements()[k]) || back.data_elements()[k] != src.data_elements()[k]) { violation(K + "same-size-conversion:value", "array constructed/assigned from an array of a convertible element type of the same size is not the element-wise conversion (int->float, long->double, float->int)"); break; } }
+				count("same-size-conversions"); }
 			break; }
 		}
 #endif
